@@ -19,6 +19,9 @@
 #include <cstdio>
 #include <cstdlib>
 #include <cstring>
+#include <csignal>
+#include <sys/time.h>
+#include <unistd.h>
 #include <cmath>
 #include <map>
 #include <set>
@@ -162,6 +165,13 @@ struct Ctx
         fflush(log);
     }
 
+    // say what the open case is running (solver class, ...): used by the runner to name a case that never came back (CPU watchdog)
+    void set_where(const std::string& w)
+    {
+        fprintf(log, "W %ld %s\n", idx, w.c_str());
+        fflush(log);
+    }
+
     // Reseed for a case. corpus == true: independent of VERIF_SEED (fixed regression corpus).
     void case_rng(const std::string& stream, long i, bool corpus = false)
     {
@@ -237,6 +247,18 @@ int main(int argc, char** argv)
     ctx.log = logpath ? fopen(logpath, "a") : stdout;
     if (!ctx.log) { perror("log"); return 2; }
     vf_setup(ctx);
+    // CPU-time watchdog per case (user-mode CPU seconds of this process: independent of how loaded the machine is). A case that burns this much CPU is
+    // not making progress; the process leaves with code 86 and the runner decides (C13: termination violation after a confirming re-run; elsewhere: inconclusive).
+    long cpu_limit = 0;
+    if (const char* cl = getenv("VF_CASE_CPU")) cpu_limit = atol(cl);
+    if (cpu_limit > 0)
+    {
+        struct sigaction sa;
+        memset(&sa, 0, sizeof sa);
+        sa.sa_handler = [](int) { _exit(86); };
+        sigaction(SIGVTALRM, &sa, nullptr);
+    }
+    auto arm = [&](long secs) { if (cpu_limit > 0) { struct itimerval tv; memset(&tv, 0, sizeof tv); tv.it_value.tv_sec = secs; setitimer(ITIMER_VIRTUAL, &tv, nullptr); } };
     const long total = vf_ncases(ctx);
     long sample_every = total / 64 + 1;
     for (long idx = (only >= 0 ? only : start); idx < total; idx++)
@@ -249,6 +271,7 @@ int main(int argc, char** argv)
         ctx.case_rng(vf_driver(), idx);
         fprintf(ctx.log, "B %ld\n", idx);
         fflush(ctx.log);
+        arm(cpu_limit);
         try
         {
             vf_run_case(ctx, idx);
@@ -262,6 +285,7 @@ int main(int argc, char** argv)
         {
             ctx.violation("harness/uncaught/unknown", "{}");
         }
+        arm(0);
         std::string c = "{", m = "{", nt = "[";
         bool f = true;
         for (auto& kv : ctx.counters) { if (!f) c += ","; f = false; c += "\"" + vf::jesc(kv.first) + "\":" + std::to_string(kv.second); }
